@@ -370,7 +370,7 @@ class Run:
         return res, fixed
 
     # ------------------------------------------------------------------ verdict
-    def finish(self, explanation=None, exhaustive=None, trusted=None, inconclusive_ok=0.1):
+    def finish(self, explanation=None, exhaustive=None, trusted=None, inconclusive_ok=0.34):
         known, _ = self.known()
         wall = time.time() - self.t0
         self.cov["distinct_nontrivial"] = max(self.cov["distinct_nontrivial"], len(self.classes))
